@@ -275,6 +275,14 @@ func runC08Narrow(c *Ctx) {
 			n++
 			xs, _ := accessPath(cv.X)
 			construct := "signed conversion of " + trunc(xs)
+			// x >> k (k >= 1) and x & mask (mask < 2^63) are below 2^63: the conversion cannot wrap
+			// (the two halves of a zig-zag decode)
+			if bo, ok := cv.X.(*ssa.BinOp); ok {
+				if k, isC := constInt(bo.Y); isC && ((bo.Op == token.SHR && k >= 1) || (bo.Op == token.AND && k >= 0)) {
+					c.OK(cv.Pos(), fn, construct, "the operand is shifted right / masked, hence below 2^63")
+					return
+				}
+			}
 			if fact, ok := boundedByInput(t, cv, cv.X, src); ok {
 				c.OK(cv.Pos(), fn, construct, "the unsigned value is bounded first: "+fact)
 				return
